@@ -8,15 +8,18 @@ namespace Tls.Order
 theorem stepK_false (c : Cfg) (s : St) (k : MsgKind) : stepK c s k false = stepK0 c s k := by
   simp [stepK]
 
-/-- `plus` (another handshake message follows in the record) can only turn an accepted message into
-    an `unexpected_message` abort -/
+/-- `plus` (further handshake bytes follow in the record) can only turn an accepted message into
+    an `unexpected_message` abort (by `_getMsg`, or by the flow for the first hello) -/
 theorem stepK_plus (c : Cfg) (s : St) (k : MsgKind) (p : Bool) :
-    stepK c s k p = stepK0 c s k ∨ stepK c s k p = .abort .unexpected_message := by
+    stepK c s k p = stepK0 c s k ∨ stepK c s k p = .abort .unexpected_message ∨
+    (stepK c s k p = .acceptAbort .unexpected_message ∧ firstHello c s k = true) := by
   unfold stepK
   simp only []
   split
-  · exact Or.inr rfl
-  · exact Or.inl rfl
+  · exact Or.inr (Or.inl rfl)
+  · split
+    · rename_i h; exact Or.inr (Or.inr ⟨rfl, by simp_all⟩)
+    · exact Or.inl rfl
 
 /-- outside `done`, `_getMsg` never delivers data, never processes a post-handshake message and
     never answers with a warning -/
@@ -27,8 +30,9 @@ theorem stepK0_hs (c : Cfg) (s : St) (k : MsgKind) (hd : s ≠ .done) :
 
 theorem stepK_hs (c : Cfg) (s : St) (k : MsgKind) (p : Bool) (hd : s ≠ .done) :
     stepK c s k p ≠ .warn ∧ stepK c s k p ≠ .deliver ∧ stepK c s k p ≠ .post := by
-  rcases stepK_plus c s k p with h | h
+  rcases stepK_plus c s k p with h | h | ⟨h, _⟩
   · rw [h]; exact stepK0_hs c s k hd
+  · rw [h]; simp
   · rw [h]; simp
 
 
@@ -85,7 +89,7 @@ theorem hsRun_K (c : Cfg) : ∀ (ms : List Msg) (r r' : Run),
       unfold step at hst
       by_cases he : epochOk c r.st r.epoch r.recsInEpoch m = true
       · simp only [he, if_true] at hst
-        rcases stepK_plus c r.st m.kind m.plus with hp | hp
+        rcases stepK_plus c r.st m.kind m.plus with hp | hp | ⟨hp, _⟩
         · rw [hp] at hst
           rw [stepK_false]
           have hhs := stepK0_hs c r.st m.kind hndone
@@ -122,6 +126,8 @@ theorem hsRun_K (c : Cfg) : ∀ (ms : List Msg) (r r' : Run),
           | abort a => intro hst _; exact (hdeadcase _ (by simpa [Out.target] using hst) h).elim
           | peerClosed => intro hst _; exact (hdeadcase _ (by simpa [Out.target] using hst) h).elim
           | acceptClosed => intro hst _; exact (hdeadcase _ (by simpa [Out.target] using hst) h).elim
+        · rw [hp] at hst
+          exact (hdeadcase _ (by simpa [Out.target] using hst) h).elim
         · rw [hp] at hst
           exact (hdeadcase _ (by simpa [Out.target] using hst) h).elim
       · simp only [he] at hst
